@@ -113,6 +113,19 @@ theorem accept_imp_voters (t : TRC) (h : validate t = .ok ()) :
   have := accept_imp_quorum t h
   omega
 
+/-- Every certificate of an accepted payload covers the TRC validity — whether or not its
+subject carries an ISD-AS attribute (`iaKind = 1`: voting certificates may omit it).  The
+ISD check and the coverage check are independent. -/
+theorem accept_imp_covers (t : TRC) (h : validate t = .ok ()) :
+    ∀ c ∈ t.certs, c.nb ≤ t.nb ∧ t.na ≤ c.na :=
+  ((validate_iff_rules t).mp h).covers
+
+/-- A payload with a certificate that does not cover the TRC validity is rejected, in
+particular when that certificate has no ISD-AS attribute. -/
+theorem uncovered_cert_rejected (t : TRC) (c : Cert) (hc : c ∈ t.certs)
+    (hn : ¬ (c.nb ≤ t.nb ∧ t.na ≤ c.na)) : validate t ≠ .ok () :=
+  fun h => hn (accept_imp_covers t h c hc)
+
 /-- The checks are applied in the order of the code: the error reported is that of the first
 failing stage (head checks, core ASes, authoritative ASes, certificates). -/
 theorem validate_error_order (t : TRC) (e : Err) :
@@ -158,6 +171,11 @@ example : validate { exTRC with quorum := -1 } = .error .quorum := by rfl
 example : validate { exTRC with quorum := 3 } = .error .voters := by rfl
 example : validate { exTRC with core := [5, 5] } = .error .dupAS := by rfl
 example : validate { exTRC with serial := 2, grace := 5, votes := [0, 1] } = .ok () := by rfl
+-- a voter WITHOUT ISD-AS (`iaKind = 1`) that covers the validity is fine; one that does not is refused
+example : validate { exTRC with certs := exTRC.certs ++ [{ exCert 6 .reg with iaKind := 1, isd := 0 }] }
+    = .ok () := by rfl
+example : validate { exTRC with certs := exTRC.certs ++
+    [{ exCert 6 .reg with iaKind := 1, isd := 0, nb := 11 }] } = .error .notCovered := by rfl
 example : validate { exTRC with certs := exTRC.certs ++ [exCert 1 .root] } = .error .dup := by
   rfl
 
